@@ -150,6 +150,33 @@ class TreeEnv:
         return out
 
 
+def interior_nodes(t):
+    """interior nodes in preorder (the root first)"""
+    out = [t]
+    st = t.__getstate__()
+    if st is None or len(st) == 1:
+        return out
+    data = st[0]
+    for i in range(0, len(data), 2):
+        if type(data[i]) is type(t):
+            out += interior_nodes(data[i])
+    return out
+
+
+def chain_obs(env, t):
+    """what the pointers show: (keys of each bucket met from _firstbucket along _next,
+    keys of the _firstbucket of every interior node in preorder; [] for NULL)"""
+    keys = lambda b: env.keys_of_leafstate(b.__getstate__())   # noqa
+    chain = [keys(b) for b in env.chain(t)]
+    firsts = [([] if n._firstbucket is None else keys(n._firstbucket)) for n in interior_nodes(t)]
+    return chain, firsts
+
+
+def chobs_term(o):
+    zl = lambda l: "[%s]" % "; ".join(Z(k) for k in l)   # noqa
+    return "ChObs [%s] [%s]" % ("; ".join(zl(l) for l in o[0]), "; ".join(zl(l) for l in o[1]))
+
+
 def shape_term(sh):
     if sh[0] == "leaf":
         return "(WLeafS [%s])" % "; ".join(Z(k) for k in sh[1])
